@@ -240,6 +240,176 @@ def _erasure_part(eng, obs, p, q, lang, stage, case):
     return obs
 
 
+def h_driver_storage(eng, lang):
+    """the driver's own storage functions: hephaestus.save_program at successive stages of ONE program object (the
+    transformations change it in place) and ProgramProcessor.get_program for --replay, called repeatedly in one
+    process: every saved .bin is the program whose text was saved next to it, and every replay starts from the
+    stored program"""
+    import copy
+    from vlib.props.C15 import H
+    from vlib import templates
+    from src.modules.processor import ProgramProcessor
+    names = sorted(n for n in templates._BUILDERS or dict(templates.all_templates()))
+    names = [n for n in names if n.split('/')[1].split('-')[0] in ('diamond', 'reassign', 'generic', 'block', 'nested')]
+    pname = names[int(eng.fresh_int(0, len(names) - 1, 'member'))]
+    p = templates.build(pname)
+    case = dict(member=pname, language=lang)
+    root = os.path.join(tmpdir(), 'drv%d' % int(eng.fresh_int(0, 0, 'dir')))
+    shutil.rmtree(root, ignore_errors=True)
+    obs, saved = [], []
+    ext = {'kotlin': 'kt', 'java': 'java'}[lang]
+
+    def save(stage):
+        with FixedRandom():
+            text = F.translate(lang, P.clone(p))
+        f = os.path.join(root, stage, 'Main.' + ext)
+        H.save_program(p, text, f)
+        saved.append((stage, f, text))
+    save('generated')
+    same_object = True
+    ops = []
+    for i in range(2):
+        op = int(eng.fresh_int(0, 2, 'op%d' % i))      # 0: save again elsewhere, 1: erase then save, 2: overwrite then save
+        before = p
+        with FixedRandom():
+            if op == 1:
+                p, _ = P.erase(p, lang)
+            elif op == 2:
+                p, _ = P.overwrite(p, lang)
+        same_object = same_object and (p is before)
+        ops.append(['save', 'erase+save', 'overwrite+save'][op])
+        save('stage%d' % (i + 1))
+    case['history'] = ops
+    for stage, f, text in saved:
+        ok_text = open(f).read() == text
+        try:
+            q = utils.load_program(f + '.bin')
+            with FixedRandom():
+                back = F.translate(lang, q)
+        except Exception as e:      # noqa
+            back = 'EXCEPTION %r' % e
+        obs.append(Ob('driver|saved-binary-is-the-program-saved-next-to-it', ok_text and back == text,
+                      dict(case, stage=stage, file=os.path.basename(os.path.dirname(f)))))
+    # --replay of the first saved program, twice in one process, the first replayed copy changed in place in between
+    args = copy.copy(H.cli_args)
+    args.replay = saved[0][1] + '.bin'
+    args.debug = False
+    same_proc = bool(eng.fresh_bool('same_processor_object'))
+    pr1 = ProgramProcessor(1, args)
+    r1, _ = pr1.get_program()
+    with FixedRandom():
+        first = F.translate(lang, P.clone(r1))
+        if bool(eng.fresh_bool('erase_between')):
+            P.erase(r1, lang)
+        else:
+            P.overwrite(r1, lang)
+    pr2 = pr1 if same_proc else ProgramProcessor(2, args)
+    r2, _ = pr2.get_program()
+    with FixedRandom():
+        second = F.translate(lang, P.clone(r2))
+    obs.append(Ob('driver|replay-starts-from-the-stored-program', first == saved[0][2] and second == saved[0][2],
+                  dict(case, same_processor=same_proc)))
+    shutil.rmtree(root, ignore_errors=True)
+    eng.event('driver-storage')
+    if any(o != 'save' for o in ops):
+        eng.event('changed-in-place-between-saves')
+    eng.notes['sample'] = case
+    return obs
+
+
+_CHILD = r'''
+import json, sys, random
+random.seed(0)
+sys.path[:0] = [sys.argv[2], sys.argv[3]]
+from src import utils
+from src.ir import types as tp, ast
+from vlib import families as F, pipeline as P
+from vlib.props.C11 import FixedRandom
+out = {}
+for name, path in json.load(open(sys.argv[1])).items():
+    q = utils.load_program(path)
+    with FixedRandom():
+        text = F.translate('kotlin', P.clone(q))
+    problems = []
+    seen = set()
+    def walk_type(t, depth=0):
+        if t is None or depth > 6:
+            return
+        if isinstance(t, tp.Builtin) and type(t).__name__ not in seen:
+            seen.add(type(t).__name__)
+            try:
+                fresh = type(t)()
+            except TypeError:
+                return
+            if not (t == fresh and hash(t) == hash(fresh) and t in {fresh} and t.is_subtype(fresh) and fresh.is_subtype(t)):
+                problems.append('loaded %s is not interchangeable with a fresh instance' % type(t).__name__)
+            for s in fresh.get_supertypes():
+                if not t.is_subtype(s):
+                    problems.append('loaded %s is not a subtype of %s' % (type(t).__name__, s))
+        for a in getattr(t, 'type_args', []) or []:
+            walk_type(a, depth + 1)
+        walk_type(getattr(t, 'bound', None), depth + 1)
+    def walk(n):
+        for attr in ('var_type', 'ret_type', 'inferred_type', 'param_type', 'field_type', 'class_type', 't', 'array_type'):
+            v = getattr(n, attr, None)
+            if isinstance(v, tp.Type):
+                walk_type(v)
+        for c in (n.children() if hasattr(n, 'children') else []):
+            walk(c)
+    for d in P.top_decls(q):
+        walk(d)
+    out[name] = dict(text=text, problems=problems)
+print('RESULT ' + json.dumps(out))
+'''
+
+
+def h_cross_process(eng, nmembers):
+    """a stored program is replayed by ANOTHER interpreter process: the dump written here (PYTHONHASHSEED=0) is loaded
+    in a child process started with a different hash salt; its translation must be the text computed here and the
+    built-in types inside it must be interchangeable with fresh instances (no process-dependent state in the dump)"""
+    import json
+    import subprocess
+    import sys
+    names = [n for n in c13_members('quick', 'roundtrip') if n.startswith('template/') or n.startswith('generated/kotlin/')]
+    names = names[:nmembers]
+    root = os.path.join(tmpdir(), 'xproc')
+    os.makedirs(root, exist_ok=True)
+    index, texts = {}, {}
+    for i, n in enumerate(names):
+        try:
+            p = stage_program(n, 'kotlin', 0)
+            with FixedRandom():
+                texts[n] = F.translate('kotlin', P.clone(p))
+        except Exception:       # noqa
+            continue
+        index[n] = os.path.join(root, 'm%d.bin' % i)
+        utils.dump_program(index[n], p)
+    json.dump(index, open(os.path.join(root, 'index.json'), 'w'))
+    child = os.path.join(root, 'child.py')
+    open(child, 'w').write(_CHILD)
+    salt = str(1 + int(eng.fresh_int(0, 2, 'hash_salt')) * 7919)
+    env = dict(os.environ, PYTHONHASHSEED=salt)
+    import vlib
+    here = os.path.dirname(os.path.dirname(os.path.abspath(vlib.__file__)))
+    repo = os.environ.get('VERIF_REPO', '/repo')
+    r = subprocess.run([sys.executable, child, os.path.join(root, 'index.json'), here, repo], env=env, capture_output=True,
+                       text=True, timeout=600)
+    line = [l for l in r.stdout.splitlines() if l.startswith('RESULT ')]
+    if not line:
+        eng.event('child-failed')
+        return [Ob('cross-process|child-ran', False, dict(stderr=r.stderr[-400:], salt=salt))]
+    res = json.loads(line[0][7:])
+    obs = []
+    for n in index:
+        got = res.get(n, {})
+        obs.append(Ob('cross-process|translation-identical', got.get('text') == texts[n], dict(member=n, hash_salt=salt)))
+        obs.append(Ob('cross-process|builtins-interchangeable-with-fresh-instances', not got.get('problems'),
+                      dict(member=n, hash_salt=salt, problems=got.get('problems', [])[:3])))
+    eng.event('cross-process')
+    eng.notes['sample'] = dict(members=len(index), hash_salt=salt)
+    return obs
+
+
 def post(per_job):
     for d in _TMP.values():
         shutil.rmtree(d, ignore_errors=True)
@@ -267,6 +437,17 @@ def jobs(tier):
                        crosscheck_every=200, setup=lambda t=tier, l=lang: prebuild(t, l, 'mutation'),
                        bounds='every family member (quick: fixtures + 2 generated programs) x stage x every outcome of the first %d random draws of TypeOverwriting.transform '
                               '(method, node, ...) recorded on the original and replayed on the reloaded copy' % nd, outside=OUT))
+    out.append(Job('driver-storage-kotlin', h_driver_storage, dict(lang='kotlin'), split_depth=3,
+                   functions=[utils.dump_program, utils.load_program], require_events=['driver-storage', 'changed-in-place-between-saves'],
+                   budget_s=1200, crosscheck_every=50,
+                   bounds='template programs; hephaestus.save_program after each of 2 operations in {save, erase+save, overwrite+save} '
+                          'on one program object; ProgramProcessor.get_program twice in one process (same / new processor object) '
+                          'with the first replayed copy changed in place', outside=OUT))
+    out.append(Job('cross-process-load', h_cross_process, dict(nmembers=12 if tier == 'quick' else 60), serial=True,
+                   functions=[utils.dump_program, utils.load_program], require_events=['cross-process'], budget_s=1200,
+                   crosscheck_every=0,
+                   bounds='%d family members dumped here (hash salt 0) and loaded in a child interpreter with 3 other hash salts: '
+                          'translation and built-in type identity' % (12 if tier == 'quick' else 60), outside=OUT))
     return out
 
 
